@@ -69,6 +69,15 @@ let run (toks : string list) : string =
           let i = String.index op ':' in
           let k = String.sub op 0 i and rest = String.sub op (i+1) (String.length op - i - 1) in
           if k = "ST" then out := show_val !c.Charac.cvalue :: !out else
+          if k = "B" then begin
+            (* the range is declared again: B:<min>,<max> *)
+            let j = String.index rest ',' in
+            let mn = String.sub rest 0 j and mx = String.sub rest (j+1) (String.length rest - j - 1) in
+            (match Charac.cstep2 true !c (Charac.CRedeclare (bound_of mn, bound_of mx)) with
+             | Ok (c', _) -> c := c'
+             | _ -> ());
+            out := show_val !c.Charac.cvalue :: !out
+          end else
           let cop = match k with
             | "L" -> Charac.CLocal (parse_val rest)
             | "G" -> Charac.CGetFn (None, parse_val rest)
